@@ -6,6 +6,7 @@ import reccommon as R
 from engine import Op, set_mode
 
 PROP = "C14"
+FOREIGN_FIRST = True
 QUICK_BOOST = 2
 LEAN_MODULES = ["IsoDT.Props.C14", "IsoDT.Props.C14b", "IsoDT.Props.C14c", "IsoDT.Props.C14mm"]
 RULE = ("recurrences as in C12 x exact shift durations (either operand order, and subtraction); pairs differing in "
@@ -370,6 +371,9 @@ class Text(Op):
 
 
 def ops():
+    import common
+    common.foreign_configurations()
     import recmm
     return [Shift(), Eq(), HashEq(), Text(),
-            recmm.RecMMOp(PROP, "mmvalue", ["mmrshift", "mmreq", "mmreq", "mmrhasheq"], 500)]
+            recmm.RecMMOp(PROP, "mmvalue", ["mmrshift", "mmreq", "mmreq", "mmrhasheq"], 500),
+            __import__("rectextops").RecTextOp()]
